@@ -8,7 +8,7 @@ import LlgoVerif.Gen.C11Atomics
 Property theorems only.  Model: `Model/Sema.lean` (llgo's semaphore and notify list, `runtime/internal/lib/runtime/
 sema_llgo.go`, as a transition system over ANY number of threads, any programs, any interleaving at lock / atomic /
 wait granularity, spurious wake-ups and the environment's choice of the thread a `Signal` wakes included).
-`Reachable cfg (init v progs) s` = "`s` is reached by some schedule from the initial state with count `v` and thread
+`Reachable cfg (init v progs) s` (`init v progs = initAt v 0 progs`) = "`s` is reached by some schedule from the initial state with count `v` and thread
 programs `progs`"; every theorem below quantifies over all of them (induction over the step sequence).
 
 `Cfg.current` is the pinned tree; `Cfg.fixed` the tree after `/verif/fixes/C11-1.diff` (ticket comparison in
@@ -133,88 +133,148 @@ theorem no_lost_wakeup_counterexample : ¬ NoLostWakeup Cfg.current := by
   have : j = 0 ∨ j = 1 ∨ j = 2 := by omega
   rcases this with rfl | rfl | rfl <;> simp at hpc <;> rw [← hpc] at ht <;> simp at ht
 
-/-! ## 2. Notify list -/
+/-! ## 2. Notify list
+
+`wait` / `notify` are the TRUE numbers of tickets drawn / notified; the code only sees their 32-bit images and compares
+them with `!=` and `notifyLess(a, b) = int32(a-b) < 0`.  `initAt v c0 progs` starts both counters at an arbitrary `c0`
+(e.g. `2^32 - 2`: the list has already served that many waiters), so every statement below covers histories in which
+the 32-bit counters wrap.  `s.sh.wait < c0 + 2^31` = "fewer than 2^31 tickets were drawn in this history". -/
+
+/-- the true counters stay in order, and the list's mutex has one holder -/
+theorem notify_counters_ordered (cfg : Cfg) (v c0 : Nat) (progs : List (List Op)) (s : State)
+    (h : Reachable cfg (initAt v c0 progs) s) : c0 ≤ s.sh.notify ∧ s.sh.notify ≤ s.sh.wait :=
+  (nlInv_reachable h).ord
+
+/-- **the guard of `NotifyOne` is exact across the wrap**: `notify32 != wait32` holds exactly when a ticket is
+    outstanding (`notify < wait`), as long as fewer than 2^32 tickets are outstanding. -/
+theorem notify_one_guard_exact (cfg : Cfg) (v c0 : Nat) (progs : List (List Op)) (s : State)
+    (h : Reachable cfg (initAt v c0 progs) s) (j : Nat) (u : Thread) (n : Nat) (hu : s.threads[j]? = some u)
+    (hpc : u.pc = .n1LoadWait n) (hb : s.sh.wait < s.sh.notify + W32) :
+    (n % W32 ≠ s.sh.wait % W32) ↔ n < s.sh.wait := by
+  have I := nlInv_reachable h
+  have hl := I.loc j u hu
+  have ho := I.ord
+  simp only [NlLocal, hpc] at hl
+  subst hl
+  unfold W32 at *
+  omega
+
+/-- an ordinary unsigned `<` on the 32-bit images is NOT the ticket order: with `notify = 2^32 - 2` and `wait = 2^32 + 1`
+    (three tickets outstanding, `wait` has wrapped) it says "nothing to notify" -/
+theorem unsigned_less_is_not_ticket_order :
+    ∃ n w : Nat, n < w ∧ w < n + 2147483648 ∧ ¬ (n % W32 < w % W32) ∧ n % W32 ≠ w % W32 ∧ less32 n w = true :=
+  ⟨4294967294, 4294967297, by decide⟩
+
+/-- **the loop of `notifyListWait` is exact across the wrap**: while fewer than 2^31 tickets have been drawn, the
+    repaired loop condition `!notifyLess(t, notify)` is `notify ≤ t` on the true counters -/
+theorem wait_loop_exact (cfg : Cfg) (hc : cfg.ticketLess = true) (v c0 : Nat) (progs : List (List Op)) (s : State)
+    (h : Reachable cfg (initAt v c0 progs) s) (hb : s.sh.wait < c0 + 2147483648) (j : Nat) (u : Thread) (tk : Nat)
+    (hu : s.threads[j]? = some u) (hpc : u.pc = .wLoad tk) :
+    keepWaiting cfg s.sh.notify tk = decide (s.sh.notify ≤ tk) := by
+  have I := nlInv_reachable h
+  have hl := I.loc j u hu
+  have ho := I.ord
+  simp only [NlLocal, hpc] at hl
+  by_cases hle : s.sh.notify ≤ tk
+  · have hx : ¬ (2147483648 ≤ (tk % 4294967296 + 4294967296 - s.sh.notify % 4294967296) % 4294967296) := by omega
+    simp [keepWaiting, hc, less32, W32, hx, hle]
+  · have hx : 2147483648 ≤ (tk % 4294967296 + 4294967296 - s.sh.notify % 4294967296) % 4294967296 := by omega
+    simp [keepWaiting, hc, less32, W32, hx, hle]
 
 /-- **Full statement**: `notifyListWait(t)` returns only when `notify > t` at that moment, i.e. only after a
     `NotifyOne`/`NotifyAll` that covers ticket `t` (`rets` = the history of returns: thread, ticket, `notify` read). -/
 def WaitReturnsOnlyAfterNotify (cfg : Cfg) : Prop :=
-  ∀ (v : Nat) (progs : List (List Op)) (s : State), Reachable cfg (init v progs) s →
-    ∀ r ∈ s.sh.rets, r.2.1 < r.2.2
+  ∀ (v c0 : Nat) (progs : List (List Op)) (s : State), Reachable cfg (initAt v c0 progs) s →
+    s.sh.wait < c0 + 2147483648 → ∀ r ∈ s.sh.rets, r.2.1 < r.2.2
 
-/-- FALSE for the pinned code (`for notify == t`): two waiters, nobody ever notifies, the second waiter (ticket 1,
-    `notify` 0) returns. -/
+/-- FALSE for the code before `fixes/C11-1.diff` (`for notify == t`): two waiters, nobody ever notifies, the second
+    waiter (ticket 1, `notify` 0) returns. -/
 theorem wait_returns_only_after_notify_counterexample : ¬ WaitReturnsOnlyAfterNotify Cfg.current := by
   intro h
-  obtain ⟨s, hr, hp⟩ := of_run (cfg := Cfg.current) (s0 := init 0 [[.wait], [.wait]])
+  obtain ⟨s, hr, hp⟩ := of_run (cfg := Cfg.current) (s0 := initAt 0 0 [[.wait], [.wait]])
     [.step 0 0, .step 1 0, .step 1 0, .step 1 0, .step 1 0]
-    (fun s => decide ((1, 1, 0) ∈ s.sh.rets)) (by decide)
-  have := h 0 _ s hr (1, 1, 0) (by simpa using hp)
+    (fun s => decide ((1, 1, 0) ∈ s.sh.rets) && decide (s.sh.wait < 2147483648)) (by decide)
+  simp only [Bool.and_eq_true, decide_eq_true_eq] at hp
+  have := h 0 0 _ s hr (by omega) (1, 1, 0) hp.1
   simp at this
 
-/-- what the pinned code does guarantee: a return happens only when `notify ≠ ticket` … -/
-theorem wait_returns_only_if_notify_differs (cfg : Cfg) (hc : cfg.ticketLess = false) (v : Nat)
-    (progs : List (List Op)) (s : State) (h : Reachable cfg (init v progs) s) :
+/-- what that code does guarantee: a return happens only when `notify ≠ ticket` … -/
+theorem wait_returns_only_if_notify_differs (cfg : Cfg) (hc : cfg.ticketLess = false) (v c0 : Nat)
+    (progs : List (List Op)) (s : State) (h : Reachable cfg (initAt v c0 progs) s) :
     ∀ r ∈ s.sh.rets, r.2.2 ≠ r.2.1 := by
   intro r hr
   have := ((baseInv_reachable h).rets r hr).1
-  simpa [keepWaiting, hc] using this
+  simp only [keepWaiting, hc, Bool.false_eq_true, if_false, beq_eq_false_iff_ne] at this
+  intro he
+  rw [he] at this
+  exact this rfl
 
 /-- … which is the full statement as long as at most one ticket has been drawn (a single waiter): for every
-    interleaving with any number of notifiers. -/
-theorem wait_returns_only_after_notify_partial (cfg : Cfg) (v : Nat) (progs : List (List Op)) (s : State)
-    (h : Reachable cfg (init v progs) s) (h1 : s.sh.wait ≤ 1) : ∀ r ∈ s.sh.rets, r.2.1 < r.2.2 := by
+    interleaving with any number of notifiers, wherever the counters start. -/
+theorem wait_returns_only_after_notify_partial (cfg : Cfg) (hc : cfg.ticketLess = false) (v c0 : Nat)
+    (progs : List (List Op)) (s : State) (h : Reachable cfg (initAt v c0 progs) s) (h1 : s.sh.wait ≤ c0 + 1) :
+    ∀ r ∈ s.sh.rets, r.2.1 < r.2.2 := by
   intro r hr
-  obtain ⟨hk, hlt⟩ := (baseInv_reachable h).rets r hr
-  have ht : r.2.1 = 0 := by omega
-  unfold keepWaiting at hk
-  split at hk
-  · simpa using hk
-  · have : r.2.2 ≠ r.2.1 := by simpa using hk
-    omega
+  have hd := wait_returns_only_if_notify_differs cfg hc v c0 progs s h r hr
+  have := (nlInv_reachable h).rng r hr
+  omega
 
-example : ∃ s, Reachable Cfg.current (init 0 [[.wait], [.notifyAll]]) s ∧
-    (decide (s.sh.wait ≤ 1) && decide (s.sh.rets = [(0, 0, 1)])) = true :=
+example : ∃ s, Reachable Cfg.current (initAt 0 4294967295 [[.wait], [.notifyAll]]) s ∧
+    (decide (s.sh.wait ≤ 4294967295 + 1) && decide (s.sh.rets = [(0, 4294967295, 4294967296)])) = true :=
   of_run [.step 0 0, .step 0 0, .step 0 0, .step 0 0, .step 1 0, .step 1 0, .step 1 0, .step 1 0, .step 0 0, .step 0 0] _
     (by decide)
 
-/-- the full statement holds for the repaired loop (`fixes/C11-1.diff`: wait while `¬ (t < notify)`). -/
+/-- the full statement holds for the repaired loop (`fixes/C11-1.diff`: wait while `!notifyLess(t, notify)`), wherever
+    the counters start — across the 2^32 wrap. -/
 theorem wait_returns_only_after_notify_fixed (cfg : Cfg) (hc : cfg.ticketLess = true) :
     WaitReturnsOnlyAfterNotify cfg := by
-  intro v progs s h r hr
-  have := ((baseInv_reachable h).rets r hr).1
-  simpa [keepWaiting, hc] using this
+  intro v c0 progs s h hb r hr
+  have hk := ((baseInv_reachable h).rets r hr).1
+  have hg := (nlInv_reachable h).rng r hr
+  have hx : 2147483648 ≤ (r.2.1 % 4294967296 + 4294967296 - r.2.2 % 4294967296) % 4294967296 := by
+    simp only [keepWaiting, hc, if_true, less32, W32, Bool.not_eq_false'] at hk
+    exact of_decide_eq_true hk
+  omega
+
+/-- a history that crosses the wrap: the counters start at `2^32 - 1`, the waiter draws ticket `2^32 - 1` (`wait` becomes
+    `0` in the code), `NotifyOne` sees `notify32 = 0xFFFFFFFF != wait32 = 0`, notifies, and the waiter returns -/
+example : ∃ s, Reachable Cfg.fixed (initAt 0 4294967295 [[.wait], [.notifyOne]]) s ∧
+    (decide (s.sh.rets = [(0, 4294967295, 4294967296)]) && decide (s.sh.wait % W32 = 0) &&
+     s.threads.all (fun t => t.pc == .done)) = true :=
+  of_run [.step 0 0, .step 0 0, .step 0 0, .step 0 0, .step 1 0, .step 1 0, .step 1 0, .step 1 0, .step 1 0,
+          .step 0 0, .step 0 0] _ (by decide)
 
 /-- **Full statement (notifications reach their tickets)**: nobody stays asleep on the notify list with a ticket that
     has been notified. -/
 def NotifyReachesTicket (cfg : Cfg) : Prop :=
-  ∀ (v : Nat) (progs : List (List Op)) (s : State), Reachable cfg (init v progs) s →
-    ∀ t ∈ s.threads, ∀ tk, t.pc = .wWait tk → s.sh.notify ≤ tk
+  ∀ (v c0 : Nat) (progs : List (List Op)) (s : State), Reachable cfg (initAt v c0 progs) s →
+    s.sh.wait < c0 + 2147483648 → ∀ t ∈ s.threads, ∀ tk, t.pc = .wWait tk → s.sh.notify ≤ tk
 
 /-- with the ticket comparison repaired but `NotifyOne` still doing `Signal`, pthreads may wake the waiter with
     ticket 1 (which goes back to sleep) and leave ticket 0 asleep although `notify = 1`: this is why the repair also
     turns the `Signal` into a `Broadcast`. -/
 theorem notify_reaches_ticket_counterexample : ¬ NotifyReachesTicket ⟨true, false, true⟩ := by
   intro h
-  obtain ⟨s, hr, hp⟩ := of_run (cfg := ⟨true, false, true⟩) (s0 := init 0 [[.wait], [.wait], [.notifyOne]])
+  obtain ⟨s, hr, hp⟩ := of_run (cfg := ⟨true, false, true⟩) (s0 := initAt 0 0 [[.wait], [.wait], [.notifyOne]])
     [.step 0 0, .step 0 0, .step 0 0, .step 0 0, .step 1 0, .step 1 0, .step 1 0, .step 1 0,
      .step 2 0, .step 2 0, .step 2 0, .step 2 0, .step 2 1]
-    (fun s => decide (s.sh.notify = 1) && decide (s.threads[0]?.map (fun (t : Thread) => t.pc) = some (Pc.wWait 0)))
+    (fun s => decide (s.sh.notify = 1) && decide (s.sh.wait < 2147483648) &&
+      decide (s.threads[0]?.map (fun (t : Thread) => t.pc) = some (Pc.wWait 0)))
     (by decide)
   simp only [Bool.and_eq_true, decide_eq_true_eq] at hp
-  obtain ⟨hn, hpc⟩ := hp
+  obtain ⟨⟨hn, hw⟩, hpc⟩ := hp
   cases ht : s.threads[0]? with
   | none => simp [ht] at hpc
   | some t =>
     simp [ht] at hpc
-    have := h 0 _ s hr t (List.mem_of_getElem? ht) 0 hpc
+    have := h 0 0 _ s hr (by omega) t (List.mem_of_getElem? ht) 0 hpc
     omega
 
-/-- the repaired notify list: every interleaving, any number of waiters and notifiers. -/
+/-- the repaired notify list: every interleaving, any number of waiters and notifiers, wherever the counters start. -/
 theorem notify_reaches_ticket_fixed (cfg : Cfg) (h1 : cfg.ticketLess = true) (h2 : cfg.oneBroadcast = true) :
     NotifyReachesTicket cfg := by
-  intro v progs s hr
-  exact reachable_induction (fun s => AllT (NoStale s.sh.notify) s.threads) (noStale_init v progs)
-    (fun _ _ _ h hn => noStale_next h1 h2 h hn) s hr
+  intro v c0 progs s hr hb
+  exact noStale_reachable h1 h2 hr hb
 
 /-! ## 3. Atomics: the regenerated lowering table -/
 
